@@ -38,6 +38,8 @@ type jExpect struct {
 	ConfigValid     *bool             `json:"configValid,omitempty"`
 	Components      json.RawMessage   `json:"components,omitempty"`
 	Diags           json.RawMessage   `json:"diags,omitempty"`
+	PlainError bool `json:"plainError"`
+	NameClash  bool `json:"nameClash"`
 	Routes          []struct {
 		Name              string `json:"name"`
 		WellLinked        bool   `json:"wellLinked"`
@@ -414,6 +416,104 @@ func judgeCase(rec *caseRecord, sum *jSummary) {
 	checkC06("main", main)
 	checkC06("alt", rec.Runs["alt"])
 
+	// ---- C07: component schemas mirror the Go declarations --------------------------------------------------------------------
+	checkC07 := func(runName string, r *runObs) {
+		if !accepted(r) || r.Spec == nil || exp.Components == nil || len(pc.Types) == 0 {
+			return
+		}
+		var comps []struct {
+			Name   string `json:"name"`
+			Schema any    `json:"schema"`
+		}
+		if err := json.Unmarshal(exp.Components, &comps); err != nil {
+			sum.Trouble = append(sum.Trouble, rec.ID+": bad expected components: "+err.Error())
+			return
+		}
+		rich := false
+		for _, t := range pc.Types {
+			for _, f := range t.Fields {
+				if f.Embed || strings.Contains(f.Type, "*"+t.Pkg+"."+t.Name) || (strings.Contains(f.Type, ".") && !strings.HasPrefix(strings.TrimLeft(f.Type, "*[]"), t.Pkg+".") && !strings.HasPrefix(f.Type, "time.")) {
+					rich = true
+				}
+			}
+		}
+		eval("C07", rich)
+		if exp.NameClash {
+			sum.Findings = append(sum.Findings, jFinding{ID: rec.ID, Prop: "C07", Class: "known:component-name-clash", What: runName + ": two reachable declarations share a bare type name and collapse into one component"})
+			return
+		}
+		want := map[string]string{}
+		for _, c := range comps {
+			// enum constants are carried as Go literals ("\"red\"", "1"): compare by value text
+			if m := asMap(c.Schema); m != nil && m["k"] == "enum" {
+				vals := []any{}
+				for _, v := range asSlice(m["values"]) {
+					vals = append(vals, strings.Trim(asString(v), "\""))
+				}
+				m["values"] = vals
+			}
+			want[c.Name] = mustJSON(canon(c.Schema))
+		}
+		if exp.PlainError {
+			want["Rfc7807Error"] = "*"
+		}
+		for name, raw := range r.Spec.Components {
+			w, ok := want[name]
+			if !ok {
+				if name == "Rfc7807Error" {
+					sum.Findings = append(sum.Findings, jFinding{ID: rec.ID, Prop: "C07", Class: "known:rfc7807-without-plain-error",
+						What: runName + ": the RFC-7807 error model is emitted although no route returns a plain error"})
+					continue
+				}
+				add("C07", fmt.Sprintf("%s (%s): component %q is not reachable from any route's parameters or results", runName, r.Spec.Version, name))
+				continue
+			}
+			if w == "*" {
+				continue
+			}
+			got := mustJSON(canon(absComponent(raw)))
+			if got != w {
+				add("C07", fmt.Sprintf("%s (%s): component %q is %s, its Go declaration gives %s", runName, r.Spec.Version, name, got, w))
+			}
+		}
+		for name := range want {
+			if _, ok := r.Spec.Components[name]; !ok {
+				add("C07", fmt.Sprintf("%s (%s): reachable type %q has no component schema", runName, r.Spec.Version, name))
+			}
+		}
+	}
+	checkC07("main", main)
+	checkC07("alt", rec.Runs["alt"])
+
+	// ---- C11: the 3.0 and 3.1 documents describe the same API ----------------------------------------------------------------
+	if alt := rec.Runs["alt"]; accepted(main) && accepted(alt) && main.Spec != nil && alt.Spec != nil {
+		hasRules := false
+		for _, t := range pc.Types {
+			for _, f := range t.Fields {
+				if f.Valid != "" && f.Valid != "required" {
+					hasRules = true
+				}
+			}
+			if t.Kind == "enum" {
+				hasRules = true
+			}
+		}
+		eval("C11", hasRules)
+		a, b := normDoc(main.Spec), normDoc(alt.Spec)
+		var diffs []string
+		diffJSON("doc", a, b, &diffs, 8)
+		for _, dline := range diffs {
+			class := "violation"
+			switch {
+			case strings.Contains(dline, ".responses.default"):
+				class = "known:default-response-3.0-only"
+			case strings.Contains(dline, ".enumTypes"):
+				class = "known:enum-values-as-strings-3.0"
+			}
+			sum.Findings = append(sum.Findings, jFinding{ID: rec.ID, Prop: "C11", Class: class, What: fmt.Sprintf("the %s and %s documents differ at %s", main.Spec.Version, alt.Spec.Version, dline)})
+		}
+	}
+
 	// ---- C08: whatever spec file appears is closed -------------------------------------------------------------------
 	for name, r := range rec.Runs {
 		if r.Spec == nil || r.Closure == nil {
@@ -649,7 +749,11 @@ func absSchema(v any) any {
 	case t == "object" && m["additionalProperties"] != nil && m["properties"] == nil:
 		return map[string]any{"k": "map", "value": absSchema(m["additionalProperties"])}
 	default:
-		return map[string]any{"k": "prim", "t": t, "f": asString(m["format"])}
+		f := asString(m["format"])
+		if f != "date-time" && f != "base64" {
+			f = "" // other formats come from validator tags, not from the Go type
+		}
+		return map[string]any{"k": "prim", "t": t, "f": f}
 	}
 }
 
@@ -677,4 +781,200 @@ func isValueDiag(code, msg string) bool {
 		return true
 	}
 	return false
+}
+
+// absComponent projects an observed component schema into the specification's SchemaOf vocabulary.
+func absComponent(v any) any {
+	m := asMap(v)
+	obj := m
+	allOf := []any{}
+	if parts, ok := m["allOf"].([]any); ok {
+		obj = map[string]any{}
+		for _, p := range parts {
+			pm := asMap(p)
+			if ref, ok := pm["$ref"].(string); ok {
+				allOf = append(allOf, strings.TrimPrefix(ref, "#/components/schemas/"))
+			} else {
+				obj = pm
+			}
+		}
+	}
+	if en, ok := obj["enum"].([]any); ok {
+		vals := []any{}
+		for _, e := range en {
+			if s, isStr := e.(string); isStr {
+				vals = append(vals, s) // compared by text: value types are C08/C11's business
+			} else {
+				vals = append(vals, mustJSON(e))
+			}
+		}
+		return map[string]any{"k": "enum", "t": typeOf(obj), "values": vals}
+	}
+	if typeOf(obj) == "object" || obj["properties"] != nil || len(allOf) > 0 {
+		props := []any{}
+		for name, ps := range asMap(obj["properties"]) {
+			props = append(props, map[string]any{"name": name, "schema": absSchema(ps)})
+		}
+		req := []any{}
+		for _, x := range asSlice(obj["required"]) {
+			req = append(req, x)
+		}
+		return map[string]any{"k": "object", "props": props, "required": req, "allOf": allOf}
+	}
+	return map[string]any{"k": "alias", "t": typeOf(obj)}
+}
+
+func typeOf(m map[string]any) string {
+	switch tv := m["type"].(type) {
+	case string:
+		return tv
+	case []any:
+		for _, x := range tv {
+			if s := asString(x); s != "null" {
+				return s
+			}
+		}
+	}
+	return ""
+}
+
+// normSchema translates a 3.0 or 3.1 schema into one dialect-free form (the dialect map of C11).
+func normSchema(v any) any {
+	m := asMap(v)
+	if m == nil {
+		return v
+	}
+	out := map[string]any{}
+	for k, x := range m {
+		switch k {
+		case "description":
+			if s := strings.TrimSpace(asString(x)); s != "" {
+				out[k] = s
+			}
+		case "title":
+			out[k] = x
+		case "deprecated", "nullable", "uniqueItems":
+			if asBool(x) {
+				out[k] = true
+			}
+		case "type":
+			out[k] = typeOf(m)
+			if arr, ok := x.([]any); ok {
+				for _, t := range arr {
+					if asString(t) == "null" {
+						out["nullable"] = true
+					}
+				}
+			}
+		case "exclusiveMinimum", "exclusiveMaximum":
+			base := "minimum"
+			if k == "exclusiveMaximum" {
+				base = "maximum"
+			}
+			if b, isBool := x.(bool); isBool {
+				if b {
+					out[k] = m[base]
+					delete(out, base)
+				}
+			} else {
+				out[k] = x
+			}
+		case "minimum", "maximum":
+			ek := "exclusiveMinimum"
+			if k == "maximum" {
+				ek = "exclusiveMaximum"
+			}
+			if b, isBool := m[ek].(bool); isBool && b {
+				continue
+			}
+			out[k] = x
+		case "properties":
+			ps := map[string]any{}
+			for n, p := range asMap(x) {
+				ps[n] = normSchema(p)
+			}
+			out[k] = ps
+		case "items", "additionalProperties":
+			out[k] = normSchema(x)
+		case "allOf", "oneOf", "anyOf":
+			l := []any{}
+			for _, p := range asSlice(x) {
+				l = append(l, mustJSON(normSchema(p)))
+			}
+			out[k] = canon(l)
+		case "required":
+			l := []any{}
+			for _, p := range asSlice(x) {
+				l = append(l, p)
+			}
+			if len(l) > 0 {
+				out[k] = canon(l)
+			}
+		case "enum":
+			l, ts := []any{}, []any{}
+			for _, e := range asSlice(x) {
+				l = append(l, fmt.Sprint(e))
+				ts = append(ts, jsonTypeOf(e))
+			}
+			out[k] = canon(l)
+			out["enumTypes"] = canon(ts)
+		case "minLength", "minItems":
+			if f, ok := x.(float64); ok && f == 0 {
+				continue
+			}
+			out[k] = x
+		default:
+			out[k] = x
+		}
+	}
+	return out
+}
+
+func normDoc(d *oaDoc) any {
+	ops := map[string]any{}
+	for _, o := range d.Ops {
+		params := []any{}
+		for _, p := range o.Params {
+			params = append(params, map[string]any{"name": p.Name, "in": p.In, "required": p.Required, "deprecated": p.Deprecated, "schema": normSchema(p.Schema), "desc": strings.TrimSpace(p.Desc)})
+		}
+		var body any
+		if o.Body != nil {
+			cs := map[string]any{}
+			for mime, sc := range o.Body.Content {
+				cs[mime] = normSchema(sc)
+			}
+			body = map[string]any{"required": o.Body.Required, "content": cs}
+		}
+		resps := map[string]any{}
+		for code, r := range o.Responses {
+			cs := map[string]any{}
+			for mime, sc := range r.Content {
+				cs[mime] = normSchema(sc)
+			}
+			desc := ""
+			if r.Desc != nil {
+				desc = strings.TrimSpace(*r.Desc)
+			}
+			resps[code] = map[string]any{"content": cs, "desc": desc}
+		}
+		sec := []any{}
+		for _, alt := range o.Security {
+			sec = append(sec, mustJSON(alt))
+		}
+		tags := []any{}
+		for _, t := range o.Tags {
+			tags = append(tags, t)
+		}
+		ops[o.Verb+" "+o.Path] = map[string]any{"opId": o.OpID, "tags": tags, "deprecated": o.Deprecated, "security": sec,
+			"params": params, "body": body, "responses": resps, "desc": strings.TrimSpace(o.Desc)}
+	}
+	comps := map[string]any{}
+	for n, sc := range d.Components {
+		comps[n] = normSchema(sc)
+	}
+	schemes := map[string]any{}
+	for n, sc := range d.Schemes {
+		schemes[n] = sc
+	}
+	return map[string]any{"ops": ops, "components": comps, "schemes": schemes}
 }
